@@ -22,17 +22,17 @@ import (
 )
 
 type msScen struct {
-	Prop   string     `json:"prop"`
-	Cfg    muxCfg     `json:"cfg"`
-	Warm   int        `json:"warm"`   // video frames (or audio writes) fed sequentially before the threads start
-	Writes int        `json:"writes"` // frames fed by the writer thread
-	Close  bool       `json:"close"`  // writer calls Close at the end
-	LongSeg int       `json:"long_seg,omitempty"` // 1: the writer skips key frames so that its second segment is three times as long
-	Params int        `json:"params"` // frame index (relative to the writer's first) that switches the parameter set; 0 none
-	Reqs   [][]string `json:"reqs"`   // per requester thread, request symbols
-	Bound  int        `json:"bound"`
-	Shard  int        `json:"shard"`
-	Shards int        `json:"shards"`
+	Prop    string     `json:"prop"`
+	Cfg     muxCfg     `json:"cfg"`
+	Warm    int        `json:"warm"`               // video frames (or audio writes) fed sequentially before the threads start
+	Writes  int        `json:"writes"`             // frames fed by the writer thread
+	Close   bool       `json:"close"`              // writer calls Close at the end
+	LongSeg int        `json:"long_seg,omitempty"` // 1: the writer skips key frames so that its second segment is three times as long
+	Params  int        `json:"params"`             // frame index (relative to the writer's first) that switches the parameter set; 0 none
+	Reqs    [][]string `json:"reqs"`               // per requester thread, request symbols
+	Bound   int        `json:"bound"`
+	Shard   int        `json:"shard"`
+	Shards  int        `json:"shards"`
 }
 
 func (s msScen) name() string {
@@ -48,17 +48,17 @@ func (s msScen) name() string {
 // units in between. frameMS is half the part duration in Low-Latency mode, else a quarter of the segment duration.
 
 type msFeeder struct {
-	mi      *muxInst
-	vtrack  int
-	frameMS int64
-	gop     int
-	next    int   // next video frame index
-	audioN  []int // per audio track: next access unit index
-	seq     int
+	mi        *muxInst
+	vtrack    int
+	frameMS   int64
+	gop       int
+	next      int   // next video frame index
+	audioN    []int // per audio track: next access unit index
+	seq       int
 	jumpMS    int64 // the next key frame is delayed by this much (one long segment)
 	offMS     int64
 	skipArmed bool
-	skipRA  int // number of upcoming key frames to write as ordinary frames (makes a long segment)
+	skipRA    int // number of upcoming key frames to write as ordinary frames (makes a long segment)
 }
 
 func newFeeder(mi *muxInst) *msFeeder {
